@@ -30,8 +30,8 @@ def tol_of(seg, size):
     return (1e-7 if isinstance(seg, Arc) else 1e-9) * size
 
 
-def check_segment(name, rot, acc, only=None, scale=1.0):
-    seg = AB.make(name, scale, rot=rot)
+def check_segment(name, rot, acc, only=None, scale=1.0, seg=None):
+    seg = AB.make(name, scale, rot=rot) if seg is None else seg
     kind = type(seg).__name__[0]
     size = seg_size(seg)
     tol = tol_of(seg, size)
@@ -93,6 +93,16 @@ def check_segment(name, rot, acc, only=None, scale=1.0):
                 acc.violation('cropped_map', dict(sig0, where=where), c, observed=cr.point(u), expected=want,
                               detail='u=%r err=%g tol=%g' % (u, abs(cr.point(u) - want), tol))
                 break
+
+
+INT_SEGMENTS = {'L_int': (2, 9), 'Q_int': (0, 7, 3), 'C_int': (0, 30, 60, 91), 'C_int_wiggle': (0, 50, -40, 10),
+                'C_int_huge': (0, 5 * 10 ** 9, -4 * 10 ** 9, 10 ** 9), 'C_mixed': (0, 30, 60.5, 91)}
+
+
+def int_segment(name):
+    """control points as plain Python ints (a curve on the real axis)"""
+    pts = INT_SEGMENTS[name]
+    return {2: Line, 3: QuadraticBezier, 4: CubicBezier}[len(pts)](*pts)
 
 
 # ---------------------------------------------------------------- operation sequences on one segment
@@ -213,8 +223,14 @@ def _closed_by_setter():
 
 
 # paths that contain EQUAL segments (they retrace themselves): anything that looks a segment up by value goes wrong here
-RAW = {'raw_retrace_lines': (_retrace, False), 'raw_retrace_curves': (_retrace_curves, False),
-       'raw_closed_by_end_setter': (_closed_by_setter, True)}
+def _two_subpaths():
+    a = chain(('L_diagonal', 'Q_generic'), None)
+    b = [Line(20 + 3j, 24 + 6j), CubicBezier(24 + 6j, 25 + 9j, 28 + 9j, 29 + 5j)]
+    return a + b
+
+
+RAW = {'raw_retrace_lines': (_retrace, 'equal_segments'), 'raw_retrace_curves': (_retrace_curves, 'equal_segments'),
+       'raw_two_subpaths': (_two_subpaths, 'two_subpaths'), 'raw_closed_by_end_setter': (_closed_by_setter, 'closed_by_setter')}
 
 
 def path_T_alphabet(p):
@@ -246,7 +262,7 @@ def all_paths(tier):
 
 def check_path(pname, acc, only=None):
     if pname in RAW:
-        segs, close = RAW[pname][0](), ('setter' if RAW[pname][1] else None)
+        segs, close = RAW[pname][0](), ('setter' if RAW[pname][1] == 'closed_by_setter' else None)
     else:
         names, close = all_paths('thorough')[pname]
         segs = chain(names, close)
@@ -259,10 +275,20 @@ def check_path(pname, acc, only=None):
     base = {'what': 'path', 'path': pname}
     sig0 = {'closed': closed, 'has_arc': has_arc}
     if pname in RAW:
-        sig0['equal_segments' if not RAW[pname][1] else 'closed_by_setter'] = True
+        sig0[RAW[pname][1]] = True
     Ts = path_T_alphabet(p)
     ls_ = [s_.length() for s_ in p]
     joints = [sum(ls_[:i + 1]) / sum(ls_) for i in range(len(ls_) - 1)]
+    gaps = [(joints[i], p[i].end, p[i + 1].start) for i in range(len(p) - 1) if p[i].end != p[i + 1].start]
+
+    def at(T):
+        """the point(s) of the path at T: where the path jumps (a gap between sub-paths) the parameter of the
+        joint belongs to both sides"""
+        out_ = [p.point(T)]
+        for jT, a_, b_ in gaps:
+            if abs(T - jT) <= 4e-9:
+                out_ += [a_, b_]
+        return out_
     if only in (None, 'reversed'):
         acc.case(dict(base, op='reversed'), cls='path/reversed')
         r = outcome(lambda: p.reversed())
@@ -280,7 +306,7 @@ def check_path(pname, acc, only=None):
                                       expected=p[k].point(u))
                         break
             for T in Ts:
-                if not abs(rp.point(1 - T) - p.point(T)) <= 1e-6 * size:
+                if not min(abs(rp.point(1 - T) - w_) for w_ in at(T)) <= 1e-6 * size:
                     acc.violation('path_reversed_T', sig0, dict(base, op='reversed', T=T), observed=rp.point(1 - T), expected=p.point(T))
                     break
     if only not in (None, 'cropped'):
@@ -308,11 +334,12 @@ def check_path(pname, acc, only=None):
             continue
         # an end within 1e-8 (in t) of a joint is snapped onto the joint by design
         etol = max(tol, 2e-8 * size)
-        if not (abs(cp[0].start - p.point(T0)) <= etol and abs(cp[-1].end - p.point(T1)) <= etol):
+        if not (min(abs(cp[0].start - w_) for w_ in at(T0)) <= etol and min(abs(cp[-1].end - w_) for w_ in at(T1)) <= etol):
             acc.violation('path_cropped_endpoints', sig, c, observed=[cp[0].start, cp[-1].end], expected=[p.point(T0), p.point(T1)])
             continue
         jt = 0 if not has_arc else tol
-        if not all(abs(cp[i].end - cp[i + 1].start) <= jt for i in range(len(cp) - 1)):
+        ngaps = sum(1 for i in range(len(p) - 1) if p[i].end != p[i + 1].start)
+        if sum(1 for i in range(len(cp) - 1) if not abs(cp[i].end - cp[i + 1].start) <= jt) > ngaps:
             acc.violation('path_cropped_pieces_not_joined', sig, c,
                           observed=[[cp[i].end, cp[i + 1].start] for i in range(len(cp) - 1)])
             continue
@@ -333,6 +360,7 @@ def shards(tier, seed):
     out = [{'what': 'segment', 'shape': n, 'rot': r, 'scale': sc} for n in (list(AB.LINES) + list(AB.QUADS) + list(AB.CUBICS) + list(AB.ARCS))
            for r in (ROTS + [90] if tier == 'quick' else ROTS + [90, 211, 180]) for sc in ([1.0, 1e-3] if tier == 'quick' else [1.0, 1e-3, 1e3, 1e6])]
     out += [{'what': 'path', 'path': n} for n in list(all_paths(tier)) + list(RAW)]
+    out += [{'what': 'int_segment', 'shape': n} for n in INT_SEGMENTS]
     out += [{'what': 'sequence', 'shape': n, 'rot': r, 'depth': 2 if tier == 'quick' else 4}
             for n in (list(AB.LINES) + list(AB.QUADS) + list(AB.CUBICS) + list(AB.ARCS)) for r in ([0] if tier == 'quick' else [0, 37, 211])]
     return out
@@ -342,6 +370,9 @@ def run_shard(desc, tier, seed):
     acc = core.Acc()
     if desc['what'] == 'segment':
         check_segment(desc['shape'], desc['rot'], acc, scale=desc.get('scale', 1.0))
+    elif desc['what'] == 'int_segment':
+        check_segment('int:' + desc['shape'], 0, acc, seg=int_segment(desc['shape']))
+        acc.seen('int_control_points')
     elif desc['what'] == 'sequence':
         check_sequences(desc['shape'], desc['rot'], desc['depth'], acc)
     else:
@@ -351,6 +382,7 @@ def run_shard(desc, tier, seed):
 
 def expected_classes(tier):
     out = ['path/reversed', 'path/cropped/wrap/inside', 'path/cropped/plain/joint', 'path/cropped/plain/inside', 'path/cropped/wrap/joint']
+    out += ['int_control_points']
     for k in 'LQCA':
         out += ['%s/sequence/depth2' % k]
         out += ['%s/reversed' % k, '%s/split' % k, '%s/cropped/interior' % k, '%s/cropped/from0' % k, '%s/cropped/to1' % k]
@@ -371,7 +403,8 @@ def replay(case):
         check_sequences(case['shape'], case['rot'], len(case['ops']), acc, only=case['ops'])
         acc.vlist = [v for v in acc.vlist if v['case']['ops'] == case['ops']]
     elif case['what'] == 'segment':
-        check_segment(case['shape'], case['rot'], acc, only=case['op'], scale=case.get('scale', 1.0))
+        check_segment(case['shape'], case['rot'], acc, only=case['op'], scale=case.get('scale', 1.0),
+                      seg=int_segment(case['shape'][4:]) if str(case['shape']).startswith('int:') else None)
         keys = [k for k in ('t', 't0', 't1') if k in case]
         acc.vlist = [v for v in acc.vlist if all(v['case'].get(k) == case[k] for k in keys)]
     else:
